@@ -1490,45 +1490,13 @@ fn binary_search_by_msg_index(
             .enumerate()
             .find(|(_all_msgs_idx, m)| m.index == wanted_msg_idx);
 
-        if let Some((all_msgs_idx, msg)) = wanted_msg {
+        if let Some((all_msgs_idx, _msg)) = wanted_msg {
             let filtered_msg_index = if stream.filters_active {
-                // map of all lc.id/lifecycle_start_times:
-                let lc_id_map = if let Some(pt) = &fc.parsing_thread {
-                    let lcs_r = &pt.lcs_r;
-                    let mut lc_map = BTreeMap::<LifecycleId, u64>::new(); // todo could opt with capacity
-                    if let Some(map_read_ref) = lcs_r.read() {
-                        map_read_ref.iter().for_each(|(k, l)| {
-                            if let Some(l) = l.get_one() {
-                                lc_map.insert(*k, l.start_time);
-                            }
-                        });
-                    };
-                    lc_map
-                } else {
-                    BTreeMap::<LifecycleId, u64>::new()
-                };
-
-                // search in the filtered msgs for the time:
-                // todo: think whether as a first step a search whether the msg is directly included
-                // makes sense. but binary_search cannot be used as the filtered_msgs are not sorted by index!
-                let wanted_msg_time_us = if let Some(lc_start_time) = lc_id_map.get(&msg.lifecycle)
-                {
-                    lc_start_time + msg.timestamp_us()
-                } else {
-                    msg.reception_time_us
-                };
+                // filtered_msgs holds positions in all_msgs in ascending order (in every sort mode):
+                // the position of the first stream msg not before the wanted one
                 stream
                     .filtered_msgs
-                    .binary_search_by(|f_idx| {
-                        let msg = fc.all_msgs.get(*f_idx).unwrap();
-                        let m_time = if let Some(lc_start_time) = lc_id_map.get(&msg.lifecycle) {
-                            lc_start_time + msg.timestamp_us()
-                        } else {
-                            msg.reception_time_us
-                        };
-                        m_time.cmp(&wanted_msg_time_us)
-                    })
-                    .unwrap_or_else(|e| e)
+                    .partition_point(|&f_idx| f_idx < all_msgs_idx)
             } else {
                 // !filters_active
                 all_msgs_idx
